@@ -4,9 +4,9 @@
    the working tree on every run (coq/gen/Cli.v); doc_* / spec_* are the documented behaviour
    (coq/Cli_Spec.v); cli_decide / cli_main / read_data_* / write_matrix / transpose /
    matrix_from_callback are the executable model (coq/Cli_Model.v). *)
-From Coq Require Import String Ascii List ZArith QArith Bool Arith Permutation.
+From Coq Require Import String Ascii List ZArith QArith Bool Arith Permutation Floats.
 From TK Require Import Cli_Model Cli_Spec Cli_Argv_Model Cli_Argv_Spec Cli_Proof_Argv Cli_Proof_Decide Cli_Proof_Files Cli_Proof_Transpose
-  Cli_Proof_Pre Cli_Proof_Main Cli_Proof_Exit Cli_Proof_Round Cli_Proof_Perm Cli_Proof_IntIO Cli_Proof_Shape Cli_Proof_Gen Cli_IntParse_Model Cli_Proof_IntParse Cli_Proof_ArgvInt Cli.
+  Cli_Proof_Pre Cli_Proof_Main Cli_Proof_Exit Cli_Proof_Round Cli_Proof_Perm Cli_Proof_IntIO Cli_Proof_Shape Cli_Proof_Gen Cli_IntParse_Model Cli_Proof_IntParse Cli_Proof_ArgvInt Cli_Float_Model Cli_Proof_Expand Cli.
 Import ListNotations.
 Local Close Scope Q_scope.
 Local Open Scope string_scope.
@@ -555,3 +555,43 @@ Theorem precompute_strict_upper_refuted :
     t a a = Some 0%Z /\ dotZ (X a) (X a) <> 0%Z.
 Proof. exact precompute_strict_upper_refuted_witness. Qed.
 Print Assumptions precompute_strict_upper_refuted.
+
+(* ---- --precompute: an algebraically equal table is not the callback's table ---- *)
+(* exact arithmetic: the Gram-identity table sqrt(max(0, -2<a,b> + |a|^2 + |b|^2)), zero diagonal (the
+   "one matrix product" variant, seeded change C20_3) holds the direct callback's values for ALL data *)
+Theorem precompute_expanded_exact_same :
+  forall (S : Type) (sqrt_oracle : Z -> S) (zero : S) (X : nat -> list Z),
+  sqrt_oracle 0%Z = zero ->
+  (forall i j, length (X i) = length (X j)) ->
+  forall a b, expanded_tableZ S sqrt_oracle zero X a b = sqrt_oracle (sqdistZ (X a) (X b)).
+Proof. exact expanded_table_exact_same. Qed.
+Print Assumptions precompute_expanded_exact_same.
+
+Example precompute_expanded_exact_same_nonvacuous :
+  Z.sqrt 0 = 0%Z /\ (forall i j : nat, length ((fun _ => [3; 4]%Z) i) = length ((fun _ => [3; 4]%Z) j)).
+Proof. exact expanded_table_exact_same_nonvacuous. Qed.
+
+Theorem precompute_expanded_exact_precomputed :
+  forall (S : Type) (sqrt_oracle : Z -> S) (zero : S) (X : nat -> list Z) (N a b : nat),
+  sqrt_oracle 0%Z = zero ->
+  (forall i j, length (X i) = length (X j)) ->
+  a < N -> b < N ->
+  precomputed S (fun a b => sqrt_oracle (sqdistZ (X a) (X b))) true N a b
+  = Some (expanded_tableZ S sqrt_oracle zero X a b).
+Proof. exact expanded_table_exact_precomputed. Qed.
+Print Assumptions precompute_expanded_exact_precomputed.
+
+Example precompute_expanded_exact_precomputed_nonvacuous :
+  Z.sqrt 0 = 0%Z /\ (forall i j : nat, length ((fun _ => [3; 4]%Z) i) = length ((fun _ => [3; 4]%Z) j)) /\ 0 < 2 /\ 1 < 2.
+Proof. exact expanded_table_exact_precomputed_nonvacuous. Qed.
+
+(* binary64 (Coq primitive floats; the model agrees bit for bit with Eigen on these inputs): samples at
+   distance exactly 1 near 2^27 (one coordinate) and near 1e8 (three coordinates) get the tabulated
+   distance 0, a pair 5.59 apart at (3e7,3e7,3e7) gets 5.568; the direct table is right in both orders.
+   Print Assumptions lists the kernel's primitive float type and operations it computes with. *)
+Theorem precompute_expanded_binary64_refuted :
+  (direct_table w1 0 1 = 1 /\ direct_table w1 1 0 = 1 /\ expanded_table w1 0 1 = 0 /\
+   direct_table w3 0 1 = 1 /\ expanded_table w3 0 1 = 0 /\
+   direct_table w7 0 1 = 0x1.65c55827df1d2p+2 /\ expanded_table w7 0 1 = 0x1.645640568c1c3p+2)%float.
+Proof. exact expanded_table_binary64_refuted_witness. Qed.
+Print Assumptions precompute_expanded_binary64_refuted.
